@@ -83,6 +83,44 @@ def run(ctx):
         # canonical forms of finished configurations are no longer needed
         for ci, _ in part:
             first.pop(ci, None)
+    # a scrape that unwinds (the user's closure of a pulling gauge panics once) leaves nothing behind: the next gather() on the same
+    # thread — of this registry and of an unrelated one — is again the function of the registry content the specification says
+    ucases = [c for c in cases if len(c["sel"]) >= 2 and "p1" not in c["sel"]]
+    rnd2 = random.Random(ctx.seed + 77)
+    rnd2.shuffle(ucases)
+    ucases = ucases[:40 if ctx.quick else 1500]
+    ujobs = []
+    for ci, c in enumerate(ucases):
+        o = sorted(c["sel"])
+        rnd2.shuffle(o)
+        calls = scenario_calls(o, c["prefix"], c["common"])[:-1]
+        calls += [{"op": "pulling_gauge", "as": "pp", "name": "Mpanics", "help": "h", "value": 3, "panic_first": 1}, {"op": "register", "reg": "r", "obj": "pp"},
+                  {"op": "gather", "reg": "r"}, {"op": "gather", "reg": "r"},
+                  {"op": "registry", "as": "r2"}, {"op": "int_counter", "as": "lone", "opts": {"name": "lone", "help": "h"}}, {"op": "register", "reg": "r2", "obj": "lone"}, {"op": "gather", "reg": "r2"}]
+        ujobs.append({"id": ci, "calls": calls})
+    ures = run_api(ctx, exe, ujobs, "unwind", nproc=8)
+    nunw = 0
+    for j, c in zip(ujobs, ucases):
+        rs = ures[j["id"]]
+        rp = {"calls": j["calls"], "case": c}
+        g1, g2, g3 = rs[-6], rs[-5], rs[-1]
+        if any("ok" not in x for x in rs[:-6]) or "panic" not in g1:
+            ctx.violation("unwind:setup", "the scripted panic did not happen as planned: %s" % json.dumps([x for x in rs if "ok" not in x][:2])[:300], rp)
+            continue
+        if "ok" not in g2 or "ok" not in g3:
+            ctx.violation("unwind:gather-failed", "gather() after a scrape that unwound failed: %s" % json.dumps(g2 if "ok" not in g2 else g3)[:300], rp)
+            continue
+        pp = [f for f in g2["ok"] if f["name"].endswith("Mpanics")]
+        rest = [f for f in g2["ok"] if not f["name"].endswith("Mpanics")]
+        why = compare(c, rest)
+        if why or len(pp) != 1 or len(pp[0]["metrics"]) != 1:
+            ctx.violation("unwind:leftovers", "registry %s: after a gather() that unwound (panicking collector), the next gather() differs from the registry content: %s" % (sorted(c["sel"]), why or "the pulling gauge's family appears %d times" % len(pp)), rp)
+            continue
+        if [(f["name"], len(f["metrics"])) for f in g3["ok"]] != [("lone", 1)]:
+            ctx.violation("unwind:leaks-into-other-registry", "after a gather() that unwound, an UNRELATED registry with one counter gathers %s" % [(f["name"], len(f["metrics"])) for f in g3["ok"]], rp)
+            continue
+        nunw += 1
+    ctx.cov["unwound_scrapes_conforming"] = nunw
     # completeness and order at scale
     import bulk
     nb = 0
